@@ -20,6 +20,7 @@ static void lg_on_alloc(uint8_t *p, uint64_t n); static void lg_on_free(uint8_t 
 #include "verif_models.h"
 #define SUB_ANS_CLASSES 2
 #include "../tree/tree_common.h"
+#include "spec_prefix.h"
 PTR_FOREACH(ADT_DEF_PTR)
 #ifdef HAVE_TAG_PTR
 TAG_PTR_ret TAG_PTR(TAG_PTR_a0 p, TAG_PTR_a1 t) { return adt_tag((const uint8_t *)p, t); }
@@ -74,6 +75,7 @@ void RETIRE(RETIRE_a0 self, RETIRE_a1 p, RETIRE_a2 size RETIRE_EXTRA) { __CPROVE
 static _Bool retired(const uint8_t *p) { for (unsigned i = 0; i < 4; i++) if (i < G_nret && G_ret[i] == p) return 1; return 0; }
 typedef __typeof__(*(ROCS_a0)0) NODE_T;
 uint64_t IN_K; unsigned IN_shape; _Bool IN_surv_leaf;
+static uint64_t G_survprefix0;
 static uint8_t *G_obj, *G_child, *G_surv, *G_db; static struct nview GV0; static uint8_t G_b; static struct stats S0, S1;
 static void set_slot(unsigned off, uint64_t w) { *(uint64_t *)(G_obj + off) = w; }
 static uint8_t *mk_lock_obj(void) { uint8_t *l = malloc(LAY_LOCK_SIZE); __CPROVER_assume(l != 0); return l; }
@@ -128,10 +130,12 @@ void harness(void) {
   __CPROVER_assume(with_surv == (GV0.count == 2 && IN_shape == 2));
   if (with_surv) {
     __CPROVER_assume(GV0.slots[GV0.keys[0] == G_b ? 1 : 0] == survw);
-    if (!IN_surv_leaf) { struct nview sv; nv_load(&sv, G_surv, 1); __CPROVER_assume(nv_wf_small(&sv) && NV_PREFIX_LEN(&sv) + NV_PREFIX_LEN(&GV0) + 1 <= 7); }
+    if (!IN_surv_leaf) { struct nview sv; nv_load(&sv, G_surv, 1); __CPROVER_assume(nv_wf_small(&sv) && NV_PREFIX_LEN(&sv) + NV_PREFIX_LEN(&GV0) + 1 <= 7); G_survprefix0 = sv.prefix; }
   }
 #endif
   _Bool at_min = nv_count(&GV0) == n_minsize(KIND);
+  const uint8_t Qb = nondet_u8(); const uint64_t qch = nv_child(&GV0, Qb);      /* arbitrary witness key byte */
+  __CPROVER_assume(Qb == G_b || childw == 0 || qch != childw);                     /* a tree, not a DAG */
   LK[0] = mk_lock_obj(); LK[1] = G_obj; LK[2] = G_child; LK[3] = G_surv;          /* a node's lock is the first member of its header */
   for (int i = 0; i < NLOCKS; i++) if (LK[i]) { RLC0[i] = nondet_u64(); __CPROVER_assume(RLC0[i] >= 0 && RLC0[i] < (1LL << 40)); RLC(LK[i]) = RLC0[i]; }
   struct { void *lock; uint64_t ver; } pcs = {LK[0], nondet_u64() & ~3ULL}, ncs = {LK[1], nondet_u64() & ~3ULL}, ccs = {0, 0};
@@ -175,6 +179,9 @@ void harness(void) {
 #endif
     if (!at_min) {
       __CPROVER_assert(G_nret == 1 && lg_allocs == 0 && lg_frees == 0 && *slot_in_parent == self_w && !OBS[1] && !OBS[0], "C04-seq: in-place removal retires exactly the leaf, the node stays");
+      { static struct nview GV1; nv_load(&GV1, G_obj, KIND);
+        __CPROVER_assert(nv_count(&GV1) + 1 == nv_count(&GV0) && GV1.prefix == GV0.prefix && nv_child(&GV1, G_b) == 0, "C01/C10: one child less, same prefix, the key byte leads nowhere");
+        if (Qb != G_b) __CPROVER_assert(nv_child(&GV1, Qb) == qch, "C01: every other key byte leads where it led before (arbitrary witness byte)"); }
       int d5[5] = {-1, 0, 0, 0, 0}; stats_check(&S0, &S1, -(int64_t)lsz, d5, Z4, Z4, 0); VERIF_CANARY("in-place removal reachable");
     } else {
 #ifdef HAVE_P_INIT
@@ -185,9 +192,14 @@ void harness(void) {
       int d5[5] = {-1, 0, 0, 0, 0}, s4[4] = {0, 0, 0, 0}; d5[KIND] = -1; s4[KIND - 1] = 1;
 #if KIND == 1
       __CPROVER_assert(lg_allocs == 0 && *slot_in_parent == survw, "C10: a two-child N4 collapses into its remaining child");
+      if (!IN_surv_leaf) { uint64_t sp = N_PREFIX(G_surv, 1), pp = GV0.prefix; unsigned Lp = kp_len(pp), Ls = kp_len(G_survprefix0); uint8_t sb = GV0.keys[GV0.keys[0] == G_b ? 1 : 0];
+        __CPROVER_assert(kp_len(sp) == Lp + 1 + Ls && ((sp ^ pp) & lowmask(Lp)) == 0 && kp_byte(sp, Lp) == sb && (((sp >> (8 * (Lp + 1))) ^ G_survprefix0) & lowmask(Ls)) == 0, "C01 collapse: the surviving inner node's prefix becomes parent prefix ++ its key byte ++ its own prefix"); }
       stats_check(&S0, &S1, -(int64_t)(lsz + n_size(1)), d5, Z4, s4, 0); VERIF_CANARY("collapse reachable");
 #else
       __CPROVER_assert(lg_allocs == 1 && lg_alloc_sz[0] == n_size(KIND - 1) && *slot_in_parent == adt_tag(lg_alloc_p[0], KIND - 1), "C10: at min_size the node is replaced by a new node of the next smaller class");
+      { static struct nview GVN; nv_load(&GVN, lg_alloc_p[0], KIND - 1);
+        __CPROVER_assert(nv_count(&GVN) + 1 == nv_count(&GV0) && nv_count(&GVN) == n_capacity(KIND - 1) && GVN.prefix == GV0.prefix && nv_child(&GVN, G_b) == 0, "C01/C10: the new node has min_size - 1 children (its capacity), the same prefix, and no child for the key byte");
+        if (Qb != G_b) __CPROVER_assert(nv_child(&GVN, Qb) == qch, "C01: every other key byte leads where it led before (arbitrary witness byte)"); }
       d5[KIND - 1] = 1; stats_check(&S0, &S1, (int64_t)n_size(KIND - 1) - (int64_t)n_size(KIND) - (int64_t)lsz, d5, Z4, s4, 0); VERIF_CANARY("shrink reachable");
 #endif
 #endif
@@ -195,6 +207,8 @@ void harness(void) {
   } else {
     /* a restart may already have allocated and released the smaller node, which was never published */
     __CPROVER_assert(G_nret == 0 && !OBS[0] && !OBS[1] && !OBS[2] && !OBS[3] && *slot_in_parent == self_w, "restart / absent / descent: nothing is retired, nothing made obsolete, the parent slot is untouched");
+    { static struct nview GV1; nv_load(&GV1, G_obj, KIND);
+      __CPROVER_assert(GV1.count == GV0.count && GV1.prefix == GV0.prefix && nv_child(&GV1, G_b) == childw && nv_child(&GV1, Qb) == qch, "restart / absent / descent: the node image is unchanged (count, prefix, K's byte, arbitrary witness byte)"); }
     __CPROVER_assert(lg_allocs == lg_frees && (lg_allocs == 0 || (!engaged && KIND >= 2 && lg_allocs == 1 && lg_freed(lg_alloc_p[0]))), "only a never-published new node may be freed directly, and only on restart");
     stats_check(&S0, &S1, 0, Z5, Z4, Z4, 0);
     if (engaged && val) {
